@@ -31,15 +31,15 @@ def _pad_none(length, ctype, maxpad):
 
 
 def _pad_block(length, ctype, maxpad):
-    return min(maxpad, (-length) % 64)
+    return max(0, min(maxpad, (-length) % 64))
 
 
 def _pad_max(length, ctype, maxpad):
-    return maxpad
+    return max(0, maxpad)
 
 
 def _pad_some(length, ctype, maxpad):
-    return min(maxpad, (length * 7 + ctype) % 97)
+    return max(0, min(maxpad, (length * 7 + ctype) % 97))
 
 
 PADDING_CBS = {None: None, "none": _pad_none, "block": _pad_block,
